@@ -144,3 +144,37 @@ def annotated(k, w: "not a type" = 0):
     div: (1 // 0) = 2                           # evaluating raises ZeroDivisionError
     text: "some string" = 3
     return buf, found, late, div, text, sum
+
+
+def reassigned(p, q=2):
+    """a parameter that is assigned again stays a parameter; a declared global that is assigned stays a global"""
+    global GLOB
+    p = p + q
+    GLOB = p
+    return p
+
+
+def make_counter():
+    count = 0
+
+    def counter(step):
+        """a closure variable assigned through nonlocal stays a closure variable"""
+        nonlocal count
+        count = count + step
+        return count
+    return counter
+
+
+counter = make_counter()
+
+
+def matcher(cmd):
+    """capture patterns bind locals"""
+    match cmd:
+        case [first, *others]:
+            return first
+        case {"key": found, **remaining}:
+            return found
+        case str() as text:
+            return text
+    return None
